@@ -12,6 +12,7 @@ import (
 
 	cfg "github.com/lianxiangcloud/linkchain/config"
 	"github.com/lianxiangcloud/linkchain/libs/common"
+	"github.com/lianxiangcloud/linkchain/libs/crypto"
 	"github.com/lianxiangcloud/linkchain/libs/ser"
 	"github.com/lianxiangcloud/linkchain/types"
 	"pgregory.net/rapid"
@@ -105,7 +106,7 @@ func TestBlockDeterminism(t *testing.T) {
 	rapid.Check(t, func(t *rapid.T) {
 		vstat.Eval()
 		defer runtime.GOMAXPROCS(runtime.GOMAXPROCS(0))
-		s := chainsim.New(t, chainsim.Options{Contracts: true, Tokens: true, AllRich: rapid.Bool().Draw(t, "allrich"), RichBalance: true, RealCache: rapid.IntRange(0, 3).Draw(t, "realcache") == 0})
+		s := chainsim.New(t, chainsim.Options{Contracts: true, Tokens: true, AllRich: rapid.Bool().Draw(t, "allrich"), RichBalance: true, RealCache: rapid.IntRange(0, 3).Draw(t, "realcache") == 0, Candidates: rapid.IntRange(0, 2).Draw(t, "candidates") != 0})
 		defer s.Close()
 		// a twin chain over the SAME genesis in the OTHER storage mode: it must accept and reproduce every block
 		twinSpec := *s.Spec
@@ -183,6 +184,27 @@ func TestBlockDeterminism(t *testing.T) {
 			defer polluted.w.Close()
 			defer rerun.w.Close()
 
+			// ---- evidence, as consensus puts it into (nearly) every block: who proposed the previous block in which round,
+			// who failed to, and occasionally a double-sign accusation.  The application scores the elected candidates with it.
+			var evidence []types.Evidence
+			if len(s.CandKeys) > 0 && rapid.IntRange(0, 3).Draw(t, "withevidence") != 0 {
+				pick := func(label string) crypto.PubKey { return s.CandKeys[rapid.IntRange(0, len(s.CandKeys)-1).Draw(t, label)] }
+				fv := &types.FaultValidatorsEvidence{BlockHeight: uint64(b), Round: rapid.IntRange(0, 2).Draw(t, "evround"), Proposer: pick("evproposer")}
+				if fv.Round > 0 {
+					fv.FaultVal = pick("evfault")
+				}
+				evidence = append(evidence, fv)
+				vstat.Label("block_with_fault_validator_evidence")
+				if rapid.IntRange(0, 4).Draw(t, "dupvote") == 0 {
+					va := &types.Vote{Height: uint64(b), Round: 0, Type: types.VoteTypePrevote, BlockID: types.BlockID{Hash: common.BytesToHash([]byte("a"))}}
+					vb := &types.Vote{Height: uint64(b), Round: 0, Type: types.VoteTypePrevote, BlockID: types.BlockID{Hash: common.BytesToHash([]byte("b"))}}
+					evidence = append(evidence, &types.DuplicateVoteEvidence{PubKey: pick("evdup"), VoteA: va, VoteB: vb})
+					vstat.Label("block_with_duplicate_vote_evidence")
+				}
+				nontrivial = true
+				hist = append(hist, fmt.Sprintf("b%d evidence %v", b+1, evidence))
+			}
+			s.W.Evidence = evidence
 			// ---- proposer path
 			tstamp := world.GenesisTime + uint64(10*(b+1))
 			var blk *types.Block
@@ -198,6 +220,7 @@ func TestBlockDeterminism(t *testing.T) {
 			enc := func() []byte { b, _ := ser.EncodeToBytes(blk); return b }()
 
 			// ---- run to run: the same transactions pre-run again on an untouched replica give the same header
+			rerun.w.Evidence = evidence
 			again := rerun.w.BlockOf(freshTxs(blk.Data.Txs), tstamp, cfg.ContractFoundationAddr)
 			func() {
 				defer func() { pan = recover() }()
